@@ -9,6 +9,7 @@ import (
 	"fmt"
 	"os"
 	"path/filepath"
+	"strings"
 	"sort"
 	"sync"
 	"testing"
@@ -31,6 +32,9 @@ type c17Case struct {
 	KeyLen int    `json:"key_len,omitempty"`
 	ValLen int    `json:"val_len,omitempty"`
 	Seed   uint64 `json:"seed,omitempty"`
+	// URLLen > 0: the store keys are that long (long keys live in nested fragment directories
+	// that the first write has to create)
+	URLLen int `json:"url_len,omitempty"`
 	// config
 	BadKey string `json:"bad_key,omitempty"`
 	KeyTag string `json:"key_tag,omitempty"`
@@ -53,6 +57,16 @@ func c17Open(path, dir, key string, keyPresent bool) (driver.Conn, error) {
 			mode = "aesgcm"
 		}
 		dsn := "fscache://" + dir + "?appname=app&encrypt=" + mode
+		if keyPresent {
+			dsn += "&encrypt_key=" + queryEscape(key)
+		}
+		return store.Open(dsn)
+	case "dsn+env":
+		// both sources at once: the key named in the DSN is the one in force, not whatever
+		// key happens to be in the process environment (a valid, different one here)
+		os.Setenv("FSCACHE_ENCRYPT_KEY", aesKey(32, 424242))
+		defer os.Unsetenv("FSCACHE_ENCRYPT_KEY")
+		dsn := "fscache://" + dir + "?appname=app&encrypt=aesgcm"
 		if keyPresent {
 			dsn += "&encrypt_key=" + queryEscape(key)
 		}
@@ -131,7 +145,11 @@ func execC17(t *testing.T, sc *world.Scenario) (*oracle.Result, string) {
 		return r, ""
 	}
 	value := world.ExpandValue(c.ValLen, c.Seed)
-	const k1, k2 = "http://a.test/c17#0", "http://a.test/c17-other#0"
+	k1, k2 := "http://a.test/c17#0", "http://a.test/c17-other#0"
+	if c.URLLen > len(k1) {
+		pad := strings.Repeat("p", c.URLLen-len(k1))
+		k1, k2 = "http://a.test/c17"+pad+"#0", "http://a.test/c17-other"+pad+"#0"
+	}
 	if err := conn.Set(k1, value); err != nil {
 		return r, "Set failed: " + err.Error()
 	}
@@ -345,7 +363,7 @@ var checkC17 = Check{Prop: "C17", Exec: execC17}
 
 func init() { register(checkC17) }
 
-var c17Paths = []string{"option", "dsn-on", "dsn-aesgcm", "env"}
+var c17Paths = []string{"option", "dsn-on", "dsn-aesgcm", "env", "dsn+env"}
 
 // TestC17Tamper: rapid draws (value, key size, switch); every byte position / truncation /
 // extension of the stored file is enumerated inside the case.
@@ -364,7 +382,7 @@ func TestC17Tamper(t *testing.T) {
 			n = gen.Pick(rt, "vbig", 5000, 70000, 140000, 200000)
 		}
 		return mkC17(c17Case{Kind: "tamper", Path: gen.Pick(rt, "path", c17Paths...), KeyLen: gen.Pick(rt, "klen", 16, 24, 32),
-			ValLen: n, Seed: uint64(rapid.IntRange(1, 1<<30).Draw(rt, "seed"))})
+			ValLen: n, Seed: uint64(rapid.IntRange(1, 1<<30).Draw(rt, "seed")), URLLen: gen.Pick(rt, "urllen", 0, 0, 0, 150, 192, 250, 400, 1000)})
 	}
 	RunCheck(t, c)
 }
@@ -382,6 +400,9 @@ func TestC17Config(t *testing.T) {
 			for _, b := range bad {
 				if p == "option" && b[0] == "absent" {
 					continue
+				}
+				if p == "dsn+env" && (b[0] == "absent" || b[0] == "empty" || b[0] == "len0") {
+					continue // no key in the DSN: the (valid) environment key is used, by design
 				}
 				if !yield(mkC17(c17Case{Kind: "config", Path: p, BadKey: b[1], KeyTag: b[0]})) {
 					return
